@@ -145,8 +145,9 @@ def r7_xver(ck):
     b = fmt.all_format_facts(G)
     for k in sorted(a):
         ck.ob(R, f"equal-0.4.7/{k}", tup_json(a[k]) == tup_json(b[k]), f"format fact `{k}` extracted from the working tree equals the one extracted from grenad 0.4.7" + ("" if tup_json(a[k]) == tup_json(b[k]) else f" — tree: {str(a[k])[:200]} / 0.4.7: {str(b[k])[:200]}"), config="default+v047")
-    va = (varint.encode_table(F)[0], varint.decode_table(F)[0], varint.length_scanner(F))
-    vb = (varint.encode_table(G)[0], varint.decode_table(G)[0], varint.length_scanner(G))
+    pub = lambda t: {k: v for k, v in t.items() if not k.startswith("_")} if isinstance(t, dict) else t   # `_x` keys are bookkeeping of the extractor, not format facts
+    va = (varint.encode_table(F)[0], pub(varint.decode_table(F)[0]), varint.length_scanner(F))
+    vb = (varint.encode_table(G)[0], pub(varint.decode_table(G)[0]), varint.length_scanner(G))
     ck.ob(R, "equal-0.4.7/varint", va == vb, "varint encode/decode/scanner tables equal grenad 0.4.7's", config="default+v047")
     xver_codec_helpers(ck, F, G, R)
 
